@@ -281,3 +281,9 @@ def simplify(case):
             del c2["spec"]["edges"][i]
             del c2["weights"][i]
             yield c2
+
+
+def sim_time(stats):
+    c = stats.get("c17", {})
+    return {"unit": "EM iterations recorded in train_info; simulated clock reads (the only timer in the system under test: time.time in hypergraph_mt)",
+            "value": c.get("em_iterations", 0), "clock_reads": c.get("simulated_clock_reads", 0)}
